@@ -852,7 +852,8 @@ def run(ctx, pid):
     forbidden_gate(ctx, src)
     for f in ("CompModel", "CompCtrl", "CompBlock", "CompProofs", "CompCheck"):
         forbidden_gate(ctx, os.path.join(COQ, "theories", "Gates", f + ".v"))
-    ok = ctx.translate("GenGatesComp", gen_gates_comp.generate)
+    # C03 also translates Circuit.inverse (circuit.py); the other three properties do not depend on it
+    ok = ctx.translate("GenGatesComp", lambda: gen_gates_comp.generate(circuit=(pid == "C03")))
     if ok:
         ctx.props(src)
     else:
@@ -880,6 +881,125 @@ def run(ctx, pid):
                 check_tree(ctx, pid, d["spec"], [], [], only_oracle=True)
 
 
+# =============================================================================== C03, circuit level
+def gen_circuit(rng, thorough):
+    """a circuit of 2..8 bound gates (gate trees of <= 3 wires, depth <= 2) on a register of 2..5 qubits"""
+    nq = rng.randint(2, 5)
+    length = rng.randint(2, 8 if thorough else 6)
+    g = Gen(rng, exact=rng.random() < 0.3, bind=True)
+    gates = []
+    for _ in range(length):
+        w = rng.randint(1, min(3, nq))
+        qs = rng.sample(range(nq), w)
+        if w == 1:
+            spec = g.leaf(1, qs) if rng.random() < 0.8 else g.general(1, qs)
+        else:
+            spec = g.tree(rng.randint(0, 2), w, qs)
+        gates.append(spec)
+    return {"comp": True, "what": "circuit", "nq": nq, "gates": gates}
+
+
+def check_circuit(ctx, inp):
+    """oracle on the implementation: Circuit.inverse().as_matrix(fields) @ Circuit.as_matrix(fields) = 1 (both orders), and
+    C.inverse() equals the independent reference (product of the adjoint gate matrices in reversed order).
+    Returns False when the circuit was skipped (register too large / a gate not fully bound)."""
+    import qib
+    world = World(inp["nq"])
+    try:
+        gates = [build(s, world) for s in inp["gates"]]
+        C = qib.Circuit(gates)
+        fields = C.fields()
+    except Exception:
+        # not a circuit (e.g. a multiplexer whose targets live on different fields refuses fields()/particles())
+        ctx.count("circuit_not_constructible")
+        return False
+    if sum(f.lattice.nsites for f in fields) > 7:
+        return False
+    try:
+        if any(len(g.particles()) != g.num_wires for g in gates):
+            return False
+    except Exception:
+        return False
+    try:
+        M = dense(C.as_matrix(fields))
+    except Exception as e:
+        ctx.fail("circuit:as_matrix-raises", inp, "a matrix", repr(e)[:200])
+        return True
+    try:
+        Ci = C.inverse()
+        Mi = dense(Ci.as_matrix(fields))
+    except Exception as e:
+        ctx.fail("circuit-inverse:raises:multi", inp, "matrix of C.inverse()", repr(e)[:200])
+        return True
+    I = np.eye(M.shape[0])
+    if Mi.shape != M.shape or maxerr(Mi @ M, I) > TOL or maxerr(M @ Mi, I) > TOL:
+        ctx.fail("circuit-inverse:not-inverse:multi", inp, "C.inverse() C = C C.inverse() = I",
+                 maxerr(Mi @ M, I) if Mi.shape == M.shape else Mi.shape)
+    # reference: adjoint of the product, built gate by gate from the embedded gate matrices
+    R = I.astype(complex)
+    for g in gates:
+        R = R @ dense(g.as_circuit_matrix(fields)).conj().T       # (G_k ... G_1)^dagger = G_1^dagger ... G_k^dagger
+    if maxerr(Mi, R) > TOL:
+        ctx.fail("circuit-inverse:differs-from-reversed-adjoints", inp, "G_1^dagger ... G_k^dagger", maxerr(Mi, R))
+    # the inverse circuit lists the same particles, gate by gate in reversed order
+    try:
+        pa = [[world.num(p) for p in g.particles()] for g in reversed(gates)]
+        pb = [[world.num(p) for p in g.particles()] for g in Ci.gates]
+        if pa != pb:
+            ctx.fail("circuit-inverse:particles-differ:multi", inp, pa, pb)
+    except Exception as e:
+        ctx.fail("circuit-inverse:particles-raise:multi", inp, "particles", repr(e)[:200])
+    return True
+
+
+def circuit_level(ctx):
+    """C03 'for every circuit C and register': theorem file coq/props/C03i.v (compiled after C03c.v, against the
+    regenerated Circuit.inverse form) + oracle sweep over random multi-gate circuits of non-commuting gates"""
+    ctx.trusted.append("C03 circuit level: Circuit.inverse's gate list is regenerated from circuit.py (gen/gates_comp.py, fail-closed; "
+                       "Circuit.__init__ storing list(gates) and the as_matrix loop are asserted textually); the circuit matrix is the "
+                       "model of C05 (Qib.Embed.CircModel.cmat, gate embedding = C04's embed); the link 'particles -> distinct in-range "
+                       "wires' (map_particle_to_wire) is a hypothesis of the theorem, shown in C04")
+    ctx.rules.append("circuit level: random circuits of 2-%d bound gates (elementary / general / prepare / controlled / multiplexed / "
+                     "block-encoding / time-evolution trees of <= 3 wires) on 2-5 qubits (+ operator fields, register <= 7 wires); oracle: "
+                     "C.inverse() C = C C.inverse() = 1, C.inverse() = G_1^dagger ... G_k^dagger, same particles gate by gate in reversed "
+                     "order. non-trivial = circuit whose matrix differs from the matrix of the reversed circuit (order matters)"
+                     % (8 if ctx.thorough else 6))
+    ctx.lib(["Gates/CircInverse"])
+    forbidden_gate(ctx, os.path.join(COQ, "theories", "Gates", "CircInverse.v"))
+    src = os.path.join(COQ, "props", "C03i.v")
+    forbidden_gate(ctx, src)
+    deps_ok = all(o["ok"] for o in ctx.obligations if o["name"] == "translator:GenGatesComp") and \
+        os.path.exists(os.path.join(ctx.build, "Prop_C03c.vo"))
+    if deps_ok:
+        ctx.props(src)
+    else:
+        ctx.oblige("props:C03i", "theorem", False, "not compiled: GenGatesComp / Prop_C03c missing")
+    import qib
+    n, done = (400 if ctx.thorough else 60), 0
+    for _ in range(4 * n):
+        if done >= n:
+            break
+        inp = gen_circuit(ctx.rng, ctx.thorough)
+        if not check_circuit(ctx, inp):
+            ctx.count("circuit_skipped")
+            continue
+        done += 1
+        ctx.count("circuit_len=%d" % len(inp["gates"]))
+        ctx.count("circuits_checked")
+        try:
+            world = World(inp["nq"])
+            gs = [build(s, world) for s in inp["gates"]]
+            fl = qib.Circuit(gs).fields()
+            A, B = dense(qib.Circuit(gs).as_matrix(fl)), dense(qib.Circuit(gs[::-1]).as_matrix(fl))
+            if maxerr(A, B) > 1e-6:
+                ctx.nontriv(repr(inp)[:4000])
+                ctx.count("circuit_order_matters")
+        except Exception:
+            pass
+        if done <= 2:
+            ctx.sample({"circuit": [kinds_of(s)[:6] for s in inp["gates"]], "nq": inp["nq"]})
+
+
 def replay(ctx, pid, data):
     inp = data.get("input")
     if not (isinstance(inp, dict) and inp.get("comp")):
@@ -887,6 +1007,8 @@ def replay(ctx, pid, data):
     before = len(ctx.failing)
     if inp["what"] == "tree":
         check_tree(ctx, pid, inp["spec"], [], [], only_oracle=True)
+    elif inp["what"] == "circuit":
+        check_circuit(ctx, inp)
     elif inp["what"] == "general":
         import qib
         M = np.array([[complex(a, b) for a, b in row] for row in inp["mat"]])
